@@ -151,18 +151,21 @@ def laws():
     SF = ["fields.scalar_field.ScalarField.rebase", "fields.scalar_field.ScalarField.__call__", "fields.scalar_field.ScalarField.apply",
           "fields.scalar_field.ScalarField.from_expression", "fields.scalar_field._subs_with_point"]
 
-    @law("ScalarField.rebase/same-value-at-the-same-physical-point", [("cart", "cyl"), ("cart", "sph"), ("cyl", "cart"), ("sph", "cart")], SF)
+    # third shape element: how many coordinates the points spell out (omitted coordinates are 0: a planar point, a point on an axis)
+    @law("ScalarField.rebase/same-value-at-the-same-physical-point", [("cart", "cyl", 3), ("cart", "sph", 3), ("cyl", "cart", 3), ("sph", "cart", 3),
+                                                                       ("cart", "cyl", 2), ("cyl", "cart", 2), ("cart", "cyl", 1), ("cyl", "cart", 1)], SF)
     def _(s, g):
         S = systems()
         src, dst = S[s[0]], S[s[1]]
+        n = s[2]
         qs = list(src.coord_system.base_scalars())
         f = sp.Function("f", real=True)
         fld = ScalarField.from_expression(f(*qs), src)
         reb = fld.rebase(dst)
         # a point given in the *curvilinear* system (inside its domain) and its Cartesian position
         cur = s[0] if s[0] != "cart" else s[1]
-        q = [g.sym("q0", positive=True), g.sym("q1"), g.sym("q2")]
-        p_cur, p_cart = pts[cur](*q), CartesianPoint(*position(cur, q))
+        q = [g.sym("q0", positive=True), g.sym("q1") if n >= 2 else sp.Integer(0), g.sym("q2") if n >= 3 else sp.Integer(0)]
+        p_cur, p_cart = pts[cur](*q[:n]), CartesianPoint(*position(cur, q)[:n])
         p_src, p_dst = (p_cart, p_cur) if s[0] == "cart" else (p_cur, p_cart)
         v_src, v_dst = fld(p_src), reb(p_dst)
         # both are the generic f applied to a coordinate triple: the clause holds iff the triples agree
